@@ -177,11 +177,31 @@ func load(env *kernel.Env, ref progRef) *loaded {
 		// every target alone on a fresh analysis: the order in which targets
 		// are generated must not matter
 		iso := l.GenerateIsolated()
-		for name, text := range iso {
-			if base, ok := ld.baseline[name]; ok && base != text {
+		for _, name := range gen.Names(iso) {
+			text := iso[name]
+			if base, ok := ld.baseline[name]; ok && base != text && ld.pending == nil {
 				_, d := differ(map[string]string{name: base}, map[string]string{name: text})
 				ld.pending = &kernel.Violation{Property: "C07", Clause: "output_depends_on_what_was_generated_before", Signature: targetOf(name),
 					Detail: fmt.Sprintf("program %s: output %s generated alone on a fresh analysis differs from the same target generated after the other targets on a shared analysis\n%s", key, name, d)}
+			}
+		}
+	}
+	if ld.pending == nil && len(l.Files) > 1 {
+		// a new load of the same files, generated in reverse order: per-file
+		// outputs must not depend on the files generated before in the process
+		rev, err := l.GenerateReordered()
+		if err != nil {
+			kernel.Harnessf("program %s does not load the second time: %v", key, err)
+		}
+		for _, name := range gen.Names(rev) {
+			text := rev[name]
+			if strings.HasPrefix(name, "dart") || ld.pending != nil {
+				continue // one output for the whole file list, in the order given
+			}
+			if base, ok := ld.baseline[name]; ok && base != text {
+				_, d := differ(map[string]string{name: base}, map[string]string{name: text})
+				ld.pending = &kernel.Violation{Property: "C07", Clause: "output_depends_on_what_was_generated_before", Signature: targetOf(name),
+					Detail: fmt.Sprintf("program %s: output %s differs when the files of the program are loaded again and generated in reverse order\n%s", key, name, d)}
 			}
 		}
 	}
